@@ -3,6 +3,7 @@
 package main
 
 import (
+	gopath "path"
 	"bytes"
 	"crypto/sha256"
 	"encoding/hex"
@@ -60,6 +61,7 @@ func vfC17(w *vfWorld) {
 		{ID: "api", Path: "/api/", Host: "up2.sim"},
 		{ID: "apiv2", Path: "/api/v2/", Host: "up3.sim"},
 		{ID: "exact", Path: "/exact", Host: "up4.sim"},
+		{ID: "exactnest", Path: "/api/status", Host: "up4.sim"}, // an exact path below a prefix upstream: "/api/status/" is NOT it
 		{ID: "sib", Path: "/apix/", Host: "up3.sim"},
 		{ID: "based", Path: "/based/", Host: "up2.sim", Base: "/base"},
 		{ID: "rw", Path: "^/rw/(.*)$", Rewrite: "/new/$1", Host: "up2.sim"},
@@ -172,7 +174,7 @@ func vfC17(w *vfWorld) {
 	nreq := 40 + t.Choice("c17.nreq", 40)
 	for i := 0; i < nreq; i++ {
 		// path
-		prefix := vfPick(t, "c17.prefix", []string{"/", "/api/", "/api/v2/", "/apix/", "/based/", "/rw/", "/rw/deep/", "/other/", "/exact", "/swap/", "/static-ok", "/api", "/exactx", "/art/", "/files/", "/files/", "/docs/", "/tenants/acme/legacy/", "/legacy/",
+		prefix := vfPick(t, "c17.prefix", []string{"/", "/api/", "/api/v2/", "/apix/", "/based/", "/rw/", "/rw/deep/", "/other/", "/exact", "/exact/", "/api/status", "/api/status/", "/swap/", "/static-ok", "/api", "/exactx", "/art/", "/files/", "/files/", "/docs/", "/tenants/acme/legacy/", "/legacy/",
 			// an encoded slash or letter right at a prefix boundary: which upstream owns the path depends on whether
 			// routing looks at the encoded or the decoded path (raw-path proxying)
 			"/robots.txt.gz", "/robots.txt/v2", "/robots.txt;v=2", "/robots.txtx", // merely START like a path the proxy answers itself
@@ -297,8 +299,9 @@ func vfC17(w *vfWorld) {
 		}
 		cs.Requests++
 		label := fmt.Sprintf("%s %s%s (body %d%s)", method, path, query, bodyLen, map[bool]string{true: " chunked", false: ""}[chunked])
-		if r.Status == 301 && len(r.UpHits) == 0 {
-			// the router's own path normalisation / trailing-slash redirect: not a proxied request
+		if r.Status == 301 && len(r.UpHits) == 0 && vfRouterWouldClean(path) {
+			// the router's own path normalisation (doubled slashes, dot segments): not a proxied request. A path that is
+			// already clean is never redirected - "/exact/" is not "/exact" but a path of the upstream that owns "/"
 			w.probe("c17:router-redirect")
 			continue
 		}
@@ -545,4 +548,22 @@ func vfValidEncodedPath(p string) bool {
 		}
 	}
 	return true
+}
+
+// vfRouterWouldClean: does the path differ from its cleaned form (the only reason for which the router answers a request
+// with a redirect of its own)?
+func vfRouterWouldClean(p string) bool {
+	for _, cand := range []string{p, func() string { d, _ := url.PathUnescape(p); return d }()} {
+		if cand == "" {
+			continue
+		}
+		np := gopath.Clean(cand)
+		if cand[len(cand)-1] == '/' && np != "/" {
+			np += "/"
+		}
+		if np != cand {
+			return true
+		}
+	}
+	return false
 }
